@@ -47,6 +47,10 @@ def m3_commit_inside_flush():
     _after(lambda: _mut(_core().SessionCache, 'flush', "                        if obj is not None: obj._save_()\n",
                         "                        if obj is not None:\n                            obj._save_()\n"
                         "                            if cache.in_transaction: cache.database.provider.commit(cache.connection, cache)\n"))
+def m3b_commit_between_m2m_remove_and_add():
+    _after(lambda: _mut(_core().SessionCache, 'flush', "                        attr.remove_m2m(removed)\n",
+                        "                        attr.remove_m2m(removed)\n"
+                        "                        if cache.in_transaction: cache.database.provider.commit(cache.connection, cache)\n"))
 def m4_no_rollback_anywhere():
     from pony.orm.dbapiprovider import DBAPIProvider, Pool
     def go():
@@ -86,7 +90,8 @@ def m14_bulk_delete_autocommit():
 PLAN = {
  'm1_no_begin_immediate': ['insert', 'update', 'delete', 'm2m', 'raw_first', 'two_flushes', 'commit_mid', 'for_update'],
  'm2_start_transaction_ignored': ['raw_first', 'commit_mid_raw', 'db_insert'],
- 'm3_commit_inside_flush': ['insert', 'update', 'm2m', 'orm_first'],
+ 'm3_commit_inside_flush': ['insert', 'update', 'orm_first', 'delete'],
+ 'm3b_commit_between_m2m_remove_and_add': ['m2m'],
  'm4_no_rollback_anywhere': ['update', 'raw_first', 'rollback_mid'],
  'eq_m4a_provider_rollback_skipped': ['update', 'raw_first'],
  'eq_m4b_pool_release_no_rollback': ['update', 'raw_first'],
